@@ -1369,7 +1369,8 @@ static int32_t write_literal(void *context, const char *text, int length, int wr
  */
 static int32_t write_uliteral(void *context, const UChar *text, int length, int wrap) {
     if (length < 0) {
-        length = u_countChar32(text, -1);
+        /* in UChar units, as u_fprintf() counts the precision of a %S conversion (and as the column is tracked) */
+        length = u_strlen(text);
     }
 
     if (length == 0) {
